@@ -41,7 +41,7 @@ def env_for(symbolic):
 def run_worker(job):
     ob, case = job["ob"], job["case"]
     cmd = [PY_SYM, os.path.join(VERIF, "engine", "worker.py"), job["module"], ob.fn,
-           json.dumps(case), str(job["timeout"]), str(ob.path_timeout or "")]
+           json.dumps(case), str(job["timeout"]), str(ob.path_timeout or ""), getattr(ob, "smt", None) or ""]
     t0 = time.time()
     try:
         p = subprocess.run(cmd, env=env_for(True), cwd=VERIF, capture_output=True, text=True,
@@ -196,7 +196,7 @@ def main():
         ob, case = job["ob"], job["case"]
         st_ = res.get("status")
         rec = {"obligation": ob.id, "fn": ob.fn, "case": case, "expect": ob.expect, "bound": ob.bound,
-               "crosshair": st_, "paths": res.get("paths", 0), "confirmed_paths": res.get("confirmed_paths", 0),
+               "engine": "z3-direct" if getattr(ob, "smt", None) else "crosshair", "crosshair": st_, "paths": res.get("paths", 0), "confirmed_paths": res.get("confirmed_paths", 0),
                "solver_queries": res.get("solver_calls", 0), "solver_s": res.get("solver_s", 0.0),
                "solver_unknown": res.get("solver_unknown", 0), "cpu_s": res.get("cpu_s"),
                "wall_s": res.get("job_wall_s"), "budget_s": job["timeout"]}
@@ -279,8 +279,10 @@ def main():
                 "Bounded symbolic execution (CrossHair 0.0.110 + z3) of the real gunicorn functions imported from "
                 "%s. Each obligation is a harness function whose arguments are solver variables within the "
                 "stated bound; 'discharged' means CrossHair exhausted the path tree (Confirmed over all paths), "
-                "or - for a reachability twin - produced a witness that replays concretely. Nothing outside the "
-                "bounds listed per obligation is claimed." % REPO),
+                "or - for a reachability twin - produced a witness that replays concretely. Obligations marked "
+                "engine=z3-direct are regular-language inclusions between the regex gates read from the current source "
+                "(pattern + applied method, via AST) and the RFC grammar, decided by z3's sequence theory with no "
+                "length bound. Nothing outside the bounds listed per obligation is claimed." % REPO),
             "obligations": len(ob_records), "discharged": discharged,
             "evaluations": max(total_paths, 1),
             "distinct_nontrivial": n_confirm_nontrivial + nontrivial,
@@ -295,7 +297,7 @@ def main():
             "known_findings_reported": [k for k in known_lines if k.startswith("KNOWN")],
             "inconclusive": inconclusive, "harness_errors": harness_errors,
             "exhaustive": False,
-            "trusted_base": ["crosshair-tool 0.0.110", "z3-solver 5.1.0", "engine/ch_ext.py", "engine/shim.py",
+            "trusted_base": ["crosshair-tool 0.0.110", "z3-solver 5.1.0", "engine/ch_ext.py", "engine/shim.py", "engine/regex_smt.py",
                              "stubs and oracles under /verif"],
             "checker_cmd": "bin/check %s --tier %s" % (pid, tier),
         },
